@@ -252,6 +252,18 @@ let expr_model out =
     | _ -> ()
   done with End_of_file -> ()
 
+(* expr-sim: lines "<toks of x> | <toks of y>": the hypothesis of the C16 theorems on two real token lists *)
+let expr_sim out =
+  let toks_of s = List.map parse_tok (List.filter (fun x -> x <> "") (String.split_on_char ';' (String.trim s))) in
+  try while true do
+    let line = input_line stdin in
+    match String.split_on_char '|' line with
+    | [a; b] ->
+      let x = toks_of a and y = toks_of b in
+      Printf.fprintf out "%s\n" (if same_tokensb x y then "SAME" else if same_tokens_cib x y then "SAME-CI" else "DIFFERENT")
+    | _ -> Printf.fprintf out "BAD-LINE\n"
+  done with End_of_file -> ()
+
 (* tree-wt: is every returned tree well typed against the regenerated schema (field count, kinds, interface conformance)? *)
 let tree_wt out =
   each_case (fun entry hex roots ->
@@ -299,5 +311,6 @@ let run (args : string list) : bool =
    | ["tree-sql"; tbl] -> load_isprint tbl; tree_sql out; true
    | ["tree-wt"] -> tree_wt out; true
    | ["expr-model"] -> expr_model out; true
+   | ["expr-sim"] -> expr_sim out; true
    | ["tree-walkmany"] -> tree_walk out 0 0 true; true
    | _ -> false)
